@@ -1,28 +1,42 @@
 """C06 — UDP keeps datagram boundaries and the peer-to-session mapping (DESIGN §7 C06).
 
-Model: lean/IoraModel/Model/UdpEngine.lean (the I/O thread's bookkeeping, one step per epoll event; the kernel's answers are inputs).
-Tie:   tools/tr_udp.py -> Gen/Udp.lean (config defaults, receive-buffer shape, every `_peerIndex` mutation site and its guard)
-       + lockstep of the REAL UdpEngine (real I/O thread, real loopback sockets, single-stepped behind an epoll_wait interposer,
-         send/sendto answers scripted) against the model driver, + implementation-only property monitors.
+Model: lean/IoraModel/Model/UdpEngine.lean (the I/O thread's bookkeeping incl. epoll interest masks, one step per epoll event; the
+       kernel's answers are inputs).
+Tie:   tools/tr_udp.py -> Gen/Udp.lean (config defaults; receive-buffer and data-view shapes; every `_peerIndex` mutation site and
+       its guard; epoll mask construction; flags of every send/recv call, socket types, setsockopt names; key()/addressFromSockaddr
+       shapes; the id counter declarations)
+       + lockstep of the REAL UdpEngine (real I/O thread, real loopback sockets on 127.0.0.1 / 127.0.0.2 / ::1, single-stepped behind an
+         epoll_wait interposer that only delivers events whose interest is armed in the recorded epoll_ctl mask, send/sendto answers
+         scripted per payload, multi-command and multi-event batches) against the model driver, + implementation-only property monitors.
 """
-import json, os, zlib
+import json, os, re, time, zlib
 from vlib.core import Ctx, ddmin
 
 ID = "C06"
 MODULES = ["IoraModel.Props.C06"]
 OBLIGATIONS = [
     {"id": "C06_G1", "theorem": "Iora.C06.G1_recv_buffer_holds_max_datagram", "kind": "proved",
-     "statement": "the receive buffer is ioReadChunk bytes and ioReadChunk >= 65507 (translated default): no truncation"},
+     "statement": "derived from the source: one buffer of ioReadChunk bytes offered whole to recvfrom/recv, data view = return value, ioReadChunk >= 65507"},
     {"id": "C06_G2", "theorem": "Iora.C06.G2_closeNow_erase_guarded", "kind": "proved",
      "statement": "closeNow erases _peerIndex[pkey] only when it maps to the closing session (translated from the source)"},
     {"id": "C06_G3", "theorem": "Iora.C06.G3_index_sites", "kind": "proved",
-     "statement": "_peerIndex is mutated only at the four mirrored sites, inserts only for absent keys, no default session cap"},
+     "statement": "_peerIndex mutated only at the four mirrored sites; inserts only under find()==end of key(addr); found branch is sid = it->second; no default cap"},
+    {"id": "C06_G4", "theorem": "Iora.C06.G4_interest_facts", "kind": "proved",
+     "statement": "addEpoll arms EPOLLIN for listener and client sockets; updateListener/updateClient keep EPOLLIN (EPOLLOUT only under wantWrite && !wq.empty())"},
+    {"id": "C06_G5", "theorem": "Iora.C06.G5_kernel_interface", "kind": "proved",
+     "statement": "send flags exactly MSG_NOSIGNAL, recv flags 0, plain non-blocking SOCK_DGRAM sockets, setsockopt only SO_RCVBUF/SO_SNDBUF/IPV6_V6ONLY"},
+    {"id": "C06_G6", "theorem": "Iora.C06.G6_address_key", "kind": "proved",
+     "statement": "key() = numeric host ':' numeric service of the whole address (both families); addressFromSockaddr = host+port; sessions keep the whole sockaddr"},
+    {"id": "C06_G7", "theorem": "Iora.C06.G7_id_counters", "kind": "proved",
+     "statement": "_nextSessionId/_nextListenerId are std::atomic starting at 1; _nextSessionId++ only in connect, connectViaListener, readFromListener"},
     {"id": "C06_T1_once", "theorem": "Iora.C06.T1_at_most_one", "kind": "proved",
      "statement": "for every history no two sent datagrams belong to the same accepted send (EAGAIN queues, flushes, overflow drops, closes included)"},
     {"id": "C06_T1_faithful", "theorem": "Iora.C06.T1_faithful", "kind": "proved",
      "statement": "for every history a sent datagram with token t: input t is cmdSend sid <same bytes>, sid was open then, dest = its peer then, socket = its socket"},
     {"id": "C06_T2_inv", "theorem": "Iora.C06.T2_index_sound", "kind": "proved",
-     "statement": "after every history each index entry points to an open ServerPeer session of that very peer"},
+     "statement": "after every history each index entry points to an open ServerPeer session of that very peer AND every open session id is < nextSid (ids never reused)"},
+    {"id": "C06_T2_mono", "theorem": "Iora.C06.T2_nextSid_monotone", "kind": "proved",
+     "statement": "nextSid never decreases (with T2_index_sound: a new session never takes the id of an open or earlier session)"},
     {"id": "C06_T2_one", "theorem": "Iora.C06.T2_one_datagram", "kind": "proved",
      "statement": "after every history one admitted datagram of 1..65507 bytes = exactly one data event, whole, on a session of its sender; accept iff unknown"},
     {"id": "C06_T2_counter", "theorem": "Iora.C06.T2_counter_exact", "kind": "proved",
@@ -35,12 +49,22 @@ OBLIGATIONS = [
      "statement": "client socket: one data event per datagram, whole, on that session"},
     {"id": "C06_T2_nonull", "theorem": "Iora.C06.T2_no_null_session", "kind": "proved",
      "statement": "_sessions[sid] in readFromListener never hits a missing session"},
+    {"id": "C06_T2_interest", "theorem": "Iora.C06.T2_interest", "kind": "proved",
+     "statement": "after every history every listener and client socket has EPOLLIN armed, and EPOLLOUT armed iff wantWrite && queue non-empty"},
+    {"id": "C06_T2_read_l", "theorem": "Iora.C06.T2_listener_always_read", "kind": "proved",
+     "statement": "after every history EPOLLIN on an existing listener is the recvfrom loop (never skipped for lack of interest)"},
+    {"id": "C06_T2_read_c", "theorem": "Iora.C06.T2_client_always_read", "kind": "proved",
+     "statement": "the same for a client socket"},
     {"id": "C06_T3_next", "theorem": "Iora.C06.T3_next_datagram", "kind": "proved",
      "statement": "if a -> sid, the next datagram from a (any listener) is data on sid, no accept, mapping kept"},
     {"id": "C06_T3_step", "theorem": "Iora.C06.T3_step", "kind": "proved",
      "statement": "any step keeps a -> sid unless it closes sid itself (closing another session never redirects or silences)"},
     {"id": "C06_T3_hist", "theorem": "Iora.C06.T3_history", "kind": "proved",
      "statement": "along any continuation that does not close sid: a -> sid at the end and no accept for a"},
+    {"id": "C06_T3_trace", "theorem": "Iora.C06.T3_trace", "kind": "proved",
+     "statement": "trace form: after any continuation that does not close sid, a datagram from a at ANY position of a recvfrom batch is exactly the one event data sid <bytes>"},
+    {"id": "C06_T3_stays", "theorem": "Iora.C06.T3_session_stays", "kind": "proved",
+     "statement": "any open session (client-socket or ServerPeer) is still in the table with the same peer/role/owner after any step, unless that step reports closed sid"},
     {"id": "C06_T3_shutdown", "theorem": "Iora.C06.T3_shutdown_index_empty", "kind": "proved",
      "statement": "stop()+start() after any history leaves the index empty, for either form (guarded/unconditional) of shutdownDrain's erase"},
     {"id": "C06_T3_F17", "theorem": "Iora.C06.T3_refuted_without_guard", "kind": "proved",
@@ -50,26 +74,28 @@ ANCHOR_FILES = ["include/iora/network/detail/udp_engine.hpp", "include/iora/netw
 HARNESS = "harness/c06_udp.cpp"
 BOUNDARY = [1, 2, 1472, 1473, 8192, 65506, 65507]
 MAXDG = 65507
-NPEERS = 5
+V4_LOCAL = [0, 1, 2, 3, 4]      # 127.0.0.1, distinct ports
+V4_OTHER = [5, 6]               # 127.0.0.2, SAME ports as peers 0 and 1
+V6 = [7]                        # ::1, same port as peer 0
 
-
-# body hashes of the mirrored C++ functions at the time the model was reviewed (tree = /repo HEAD + fixes/F17 patch); a difference is
-# reported in the evidence ("mirrored source changed since the model was reviewed"), it is NOT an alarm: the lockstep decides.
+# body hashes of the mirrored C++ functions at the time the model was reviewed (tree = /repo HEAD 917a190, F17 and F30 included); a
+# difference is reported in the evidence ("mirrored source changed since the model was reviewed"), it is NOT an alarm: the lockstep decides.
 REVIEWED_ANCHORS = {"readFromListener": "0fc1a2b6bcc6b684", "onClient": "6369b4f050f08873", "connectDo": "e39df8c854b7fcfc",
                     "viaDo": "8dd0f624e79b440d", "sendDo": "394eac844294f72c", "flushListener": "29f73234632388ee",
                     "writeClient": "1f8857d0c0cc1bd0", "closeNow": "62ca6ab7c0e25b36", "runGc": "0dacf43630d8a35b",
-                    "shutdownDrain": "8a475c343c6acaec", "updateListener": "0f20c0f2a9bff3e5", "updateClient": "b5487b42a89214cd",
-                    "process": "e158fb026fb1d6df"}
+                    "shutdownDrain": "1933b31c08bbe965", "updateListener": "0f20c0f2a9bff3e5", "updateClient": "b5487b42a89214cd",
+                    "process": "e158fb026fb1d6df", "addListenerDo": "f5a0bddd51a71540", "key": "f6e238fdeb9ad40d",
+                    "addressFromSockaddr": "20d0db15b5d6c5de"}
 
 
 def anchors_changed(ctx):
-    import re
     from vlib.core import LEAN
     try:
         txt = open(os.path.join(LEAN, "IoraModel", "Gen", "Udp.lean")).read()
     except OSError:
         return ["Gen/Udp.lean missing"]
-    cur = dict(re.findall(r'\("(\w+)", "([0-9a-f]{16})"\)', txt))
+    m = re.search(r"def anchors[^\n]*", txt)
+    cur = dict(re.findall(r'\("(\w+)", "([0-9a-f]{16})"\)', m.group(0) if m else ""))
     return sorted(k for k in REVIEWED_ANCHORS if cur.get(k) != REVIEWED_ANCHORS[k])
 
 
@@ -89,26 +115,32 @@ def expand(tok):
         pat = bytes.fromhex(hx)
         b = (pat * (n // len(pat) + 1))[:n] if n else b""
         r = (n, zlib.crc32(b) & 0xFFFFFFFF)
-        if len(_exp_cache) < 200000:
+        if len(_exp_cache) < 400000:
             _exp_cache[tok] = r
     return r
 
 
-def rand_payload(rng, big_ok=True, allow_over=False):
-    k = rng.below(20)
-    if k < 11:
-        n = rng.range(1, 48)
-    elif k < 14:
-        n = rng.range(49, 1600)
-    elif k < 18 or not big_ok:
-        n = rng.choice([1, 2, 3, 255, 256, 1472, 1473, 1500, 8192])
-    else:
-        n = rng.choice(BOUNDARY + [65507, 65506, 40000])
-    if allow_over and rng.chance(1, 25):
-        n = rng.choice([65508, 65509, 70000])
-    plen = rng.choice([1, 2, 3, 5, 7, 13, 31])
-    pat = rng.bytes(plen)
-    return "%d.%s" % (n, pat.hex())
+def rand_payload(rng, used, big_ok=True, allow_over=False):
+    """A payload token whose (len, crc) is new in this case: answers and deliveries are matched by payload."""
+    for _ in range(50):
+        k = rng.below(20)
+        if k < 11:
+            n = rng.range(1, 48)
+        elif k < 14:
+            n = rng.range(49, 1600)
+        elif k < 18 or not big_ok:
+            n = rng.choice([1, 2, 3, 255, 256, 1472, 1473, 1500, 8192])
+        else:
+            n = rng.choice(BOUNDARY + [65507, 65506, 40000])
+        if allow_over and rng.chance(1, 25):
+            n = rng.choice([65508, 65509, 70000])
+        plen = rng.choice([2, 3, 5, 7, 13, 31])
+        tok = "%d.%s" % (n, rng.bytes(plen).hex())
+        key = expand(tok)
+        if key not in used:
+            used.add(key)
+            return tok
+    raise RuntimeError("cannot draw a fresh payload")
 
 
 # ------------------------------------------------------------------ generator-side sketch of the bookkeeping (only to pick plausible ids)
@@ -119,7 +151,8 @@ class Sketch:
         self.nl = 0
         self.sess = {}        # sid -> [role, peer, owner]
         self.ix = {}          # peer -> sid
-        self.lq = {}          # lid -> queued count
+        self.lq = {}          # lid -> queued count (open listeners only)
+        self.lfam = {}        # lid -> 4 | 6
         self.cq = {}          # sid -> queued count
 
     def cap(self):
@@ -143,6 +176,21 @@ class Sketch:
             return rng.choice(sorted(self.lq))
         return rng.choice([0, self.nl + 1, 9, max(1, self.nl)])
 
+    def listen(self, fam):
+        self.nl += 1
+        self.lq[self.nl] = 0
+        self.lfam[self.nl] = fam
+
+    def arrive(self, lid, p):
+        if p not in self.ix and not self.cap():
+            self.sess[self.next_sid] = ["p", p, lid]
+            self.ix[p] = self.next_sid
+            self.next_sid += 1
+
+
+def fam_of(p):
+    return 6 if p in V6 else 4
+
 
 def script(rng, n):
     k = rng.below(6)
@@ -151,136 +199,245 @@ def script(rng, n):
     return "".join(rng.choice("oooooeex" if k < 5 else "ex") for _ in range(rng.range(1, max(1, n + 1))))
 
 
-def gen_case(rng, cat, nops):
-    cfg = {}
-    if cat == "default":
-        pass
-    elif cat == "cap":
-        cfg["ms"] = rng.choice([1, 2, 3])
-    elif cat == "queue":
-        cfg["wq"] = rng.choice([0, 1, 2, 3])
-        cfg["cob"] = rng.below(2)
-    elif cat == "gc":
-        cfg["idle"] = rng.choice([1, 30, 600])
-        if rng.chance(1, 2):
-            cfg["age"] = rng.choice([50, 700])
-        if rng.chance(1, 2):
-            cfg["stall"] = rng.choice([500, 5000])
-    elif cat == "small-chunk":
-        cfg["chunk"] = rng.choice([100, 1500, 65506, 65507])
-    elif cat == "mixed":
-        if rng.chance(1, 2): cfg["ms"] = rng.choice([2, 3, 4])
-        if rng.chance(1, 2): cfg["wq"] = rng.choice([1, 2, 4])
-        if rng.chance(1, 2): cfg["cob"] = rng.below(2)
-        if rng.chance(1, 2): cfg["idle"] = rng.choice([1, 30])
-    if rng.chance(1, 4):
-        cfg["batch"] = 1
-    if rng.chance(1, 4):
-        cfg["et"] = 0
-    npeers = rng.choice([1, 2, 2, 3, NPEERS]) if cat != "same-peer" else rng.choice([1, 2])
-    ops = ["reset" + "".join(" %s=%d" % kv for kv in sorted(cfg.items()))]
-    g = Sketch(cfg)
-    for _ in range(rng.choice([1, 1, 2, 3])):
-        ops.append("listen")
-        g.nl += 1
-        g.lq[g.nl] = 0
-    big_budget = 2
-    idle_ms = cfg.get("idle", 600) * 1000
-    while len(ops) < nops:
-        k = rng.below(100)
-        if k < 26:
-            lid = g.any_lid(rng)
-            dgs = []
-            for _ in range(rng.choice([1, 1, 1, 2, 3])):
-                p = rng.below(npeers)
-                pl = rand_payload(rng, big_ok=big_budget > 0 and not dgs)
-                if int(pl.split(".")[0]) > 9000:
-                    big_budget -= 1
-                dgs.append((p, pl))
-            ops.append("dg %d %s" % (lid, ",".join("%d:%s" % d for d in dgs)))
-            if 1 <= lid <= g.nl:
-                for p, pl in dgs:
-                    if p not in g.ix and not g.cap():
-                        g.sess[g.next_sid] = ["p", p, lid]
-                        g.ix[p] = g.next_sid
-                        g.next_sid += 1
-        elif k < 38:
-            lid = g.any_lid(rng)
-            p = rng.below(npeers)
-            ops.append("via %d %d" % (lid, p))
-            sid = g.next_sid
-            g.next_sid += 1
-            if 1 <= lid <= g.nl and not g.cap():
-                g.sess[sid] = ["p", p, lid]
-                g.ix.setdefault(p, sid)
-        elif k < 45:
-            p = rng.below(npeers)
-            ops.append("connect %d" % p)
-            g.sess[g.next_sid] = ["c", p, 0]
-            g.next_sid += 1
-        elif k < 57:
-            sid = g.any_sid(rng)
-            ops.append("close %d" % sid)
-            g.close(sid)
-        elif k < 77:
-            sid = g.any_sid(rng)
-            pl = rand_payload(rng, big_ok=big_budget > 0, allow_over=True)
-            if int(pl.split(".")[0]) > 9000:
-                big_budget -= 1
-            ans = rng.choice(["ok", "ok", "ok", "eagain", "eagain", "err"]) if cat != "queue" else rng.choice(["ok", "eagain", "eagain", "eagain", "err"])
-            if rng.chance(1, 40):
-                pl = "0.00"
-            ops.append("send %d %s %s" % (sid, pl, ans))
-            s = g.sess.get(sid)
-            if s and ans == "eagain":
-                if s[0] == "c":
-                    g.cq[sid] = g.cq.get(sid, 0) + 1
-                else:
-                    g.lq[s[2]] = g.lq.get(s[2], 0) + 1
-            elif s and ans == "err":
-                g.close(sid)
-        elif k < 84:
-            lids = [l for l, n in g.lq.items() if n] or [g.any_lid(rng)]
-            lid = rng.choice(lids)
-            ops.append("wl %d %s" % (lid, script(rng, g.lq.get(lid, 1))))
-            g.lq[lid] = 0
-        elif k < 88:
-            sids = [s for s, n in g.cq.items() if n] or [g.any_sid(rng, "c")]
-            sid = rng.choice(sids)
-            ops.append("wc %d %s" % (sid, script(rng, g.cq.get(sid, 1))))
-            g.cq[sid] = 0
-        elif k < 93:
-            sid = g.any_sid(rng, "c")
-            ops.append("cdg %d %s" % (sid, ",".join(rand_payload(rng, big_ok=False) for _ in range(rng.choice([1, 1, 2, 3])))))
-        elif k < 97:
-            ops.append("adv %d" % rng.choice([1, 999, idle_ms - 1, idle_ms, idle_ms + 1, idle_ms // 2, 2 * idle_ms, 499, 501, 49999, 50001]))
-        elif k < 99 or not rng.chance(1, 2):
-            ops.append("gc")             # the sketch does not follow the clock; stale ids afterwards are fine
+class Gen:
+    """One history. Atoms are produced by a_*() (text + sketch update); an op is one atom, or a `multi` of several."""
+
+    def __init__(self, rng, cat):
+        self.rng, self.cat = rng, cat
+        cfg = {}
+        if cat == "cap":
+            cfg["ms"] = rng.choice([1, 2, 3])
+        elif cat == "queue":
+            cfg["wq"] = rng.choice([0, 1, 2, 3])
+            cfg["cob"] = rng.below(2)
+        elif cat == "gc":
+            cfg["idle"] = rng.choice([1, 30, 600])
+            if rng.chance(1, 2):
+                cfg["age"] = rng.choice([50, 700])
+            if rng.chance(1, 2):
+                cfg["stall"] = rng.choice([500, 5000])
+        elif cat == "small-chunk":
+            cfg["chunk"] = rng.choice([100, 1500, 65506, 65507])
+        elif cat == "mixed":
+            if rng.chance(1, 2): cfg["ms"] = rng.choice([2, 3, 4])
+            if rng.chance(1, 2): cfg["wq"] = rng.choice([1, 2, 4])
+            if rng.chance(1, 2): cfg["cob"] = rng.below(2)
+            if rng.chance(1, 2): cfg["idle"] = rng.choice([1, 30])
+        if rng.chance(1, 4):
+            cfg["batch"] = 1
+        if rng.chance(1, 4):
+            cfg["et"] = 0
+        self.cfg = cfg
+        self.g = Sketch(cfg)
+        self.used = set()
+        self.big_budget = 2
+        self.idle_ms = cfg.get("idle", 600) * 1000
+        # which peers take part: always some on 127.0.0.1; often the same-port twins on 127.0.0.2 / ::1 (the host and the family matter)
+        if cat == "same-peer":
+            self.peers = rng.choice([[0], [0, 1], [0, 5], [0, 5, 7], [1, 6]])
+        elif cat == "same-key":
+            self.peers = rng.choice([[0, 5], [0, 5, 7], [0, 1, 5, 6], [0, 7], [0, 1, 5, 6, 7]])
         else:
-            ops.append("restart")        # stop() + start(): sessions and listeners are gone, id counters go on
-            g.sess.clear(); g.ix.clear(); g.cq.clear()
-            g.lq = {}
-            if rng.chance(2, 3):
-                ops.append("listen")
-                g.nl += 1
-                g.lq[g.nl] = 0
-    return {"cat": cat, "ops": ops, "cfg": cfg}
+            self.peers = rng.choice([[0, 1], [0, 1, 2], [0, 1, 2, 3, 4], [0, 2, 5], [0, 1, 5, 6, 7], [0, 1, 2, 3, 4, 5, 6, 7]])
+        self.ops = ["reset" + "".join(" %s=%d" % kv for kv in sorted(cfg.items()))]
+        for _ in range(rng.choice([1, 1, 2, 3])):
+            self.ops.append("listen")
+            self.g.listen(4)
+        if any(p in V6 for p in self.peers):
+            self.ops.append("listen6")
+            self.g.listen(6)
+
+    def payload(self, big_ok=True, allow_over=False):
+        big_ok = big_ok and self.big_budget > 0
+        pl = rand_payload(self.rng, self.used, big_ok=big_ok, allow_over=allow_over)
+        if int(pl.split(".")[0]) > 9000:
+            self.big_budget -= 1
+        return pl
+
+    def peer_for(self, fam):
+        c = [p for p in self.peers if fam_of(p) == fam]
+        return self.rng.choice(c) if c else None
+
+    # ---- atoms
+    def a_dg(self, lid=None):
+        g, rng = self.g, self.rng
+        lid = g.any_lid(rng) if lid is None else lid
+        fam = g.lfam.get(lid, 4)
+        dgs = []
+        for _ in range(rng.choice([1, 1, 1, 2, 3])):
+            p = self.peer_for(fam)
+            if p is None:
+                break
+            dgs.append((p, self.payload(big_ok=not dgs)))
+        if not dgs:
+            return None
+        if lid in g.lq:
+            for p, _ in dgs:
+                g.arrive(lid, p)
+        return "dg %d %s" % (lid, ",".join("%d:%s" % d for d in dgs))
+
+    def a_cdg(self):
+        sid = self.g.any_sid(self.rng, "c")
+        return "cdg %d %s" % (sid, ",".join(self.payload(big_ok=False) for _ in range(self.rng.choice([1, 1, 2, 3]))))
+
+    def a_via(self):
+        g, rng = self.g, self.rng
+        lid = g.any_lid(rng)
+        p = rng.choice(self.peers)
+        sid = g.next_sid
+        g.next_sid += 1
+        if lid in g.lq and g.lfam[lid] == fam_of(p) and not g.cap():
+            g.sess[sid] = ["p", p, lid]
+            g.ix.setdefault(p, sid)
+        return "via %d %d" % (lid, p)
+
+    def a_connect(self):
+        p = self.rng.choice(self.peers)
+        self.g.sess[self.g.next_sid] = ["c", p, 0]
+        self.g.next_sid += 1
+        return "connect %d" % p
+
+    def a_close(self):
+        sid = self.g.any_sid(self.rng)
+        self.g.close(sid)
+        return "close %d" % sid
+
+    def a_send(self):
+        g, rng = self.g, self.rng
+        sid = g.any_sid(rng)
+        pl = self.payload(allow_over=True)
+        ans = rng.choice(["ok", "ok", "ok", "eagain", "eagain", "err"]) if self.cat != "queue" else rng.choice(["ok", "eagain", "eagain", "eagain", "err"])
+        if rng.chance(1, 40):
+            pl = "0.00"
+        s = g.sess.get(sid)
+        if s and ans == "eagain":
+            if s[0] == "c":
+                g.cq[sid] = g.cq.get(sid, 0) + 1
+            elif s[2] in g.lq:
+                g.lq[s[2]] += 1
+        elif s and ans == "err":
+            g.close(sid)
+        return "send %d %s %s" % (sid, pl, ans)
+
+    def a_wl(self):
+        g, rng = self.g, self.rng
+        lids = [l for l, n in g.lq.items() if n] or [g.any_lid(rng)]
+        lid = rng.choice(lids)
+        t = "wl %d %s" % (lid, script(rng, g.lq.get(lid, 1)))
+        if lid in g.lq:
+            g.lq[lid] = 0
+        return t
+
+    def a_wc(self):
+        g, rng = self.g, self.rng
+        sids = [s for s, n in g.cq.items() if n] or [g.any_sid(rng, "c")]
+        sid = rng.choice(sids)
+        t = "wc %d %s" % (sid, script(rng, g.cq.get(sid, 1)))
+        g.cq[sid] = 0
+        return t
+
+    def a_cmd(self):
+        k = self.rng.below(10)
+        return self.a_send() if k < 5 else self.a_close() if k < 7 else self.a_via() if k < 9 else self.a_connect()
+
+    def a_multi(self):
+        """One epoll batch: several socket events and/or several commands behind ONE eventfd event."""
+        rng, g = self.rng, self.g
+        evs, socks = [], set()
+        flush_done = False
+        for _ in range(rng.choice([2, 2, 3, 4])):
+            k = rng.below(10)
+            if k < 4:
+                evs.append("cmds " + " / ".join(self.a_cmd() for _ in range(rng.choice([1, 2, 2, 3, 4])))) if not any(e.startswith("cmds") for e in evs) else None
+            elif k < 7:
+                lid = g.any_lid(rng)
+                if ("L", lid, "i") not in socks:
+                    t = self.a_dg(lid)
+                    if t:
+                        socks.add(("L", lid, "i"))
+                        evs.append(t)
+            elif k < 8:
+                t = self.a_cdg()
+                key = ("C", t.split()[1], "i")
+                if key not in socks:
+                    socks.add(key)
+                    evs.append(t)
+            elif k < 9 and not flush_done:
+                flush_done = True
+                evs.append(self.a_wl() if rng.chance(2, 3) else self.a_wc())
+            elif "gc" not in evs:
+                evs.append("gc")
+        evs = [e for e in evs if e]
+        if not evs:
+            evs = ["cmds " + self.a_cmd()]
+        # a command event that allocates session ids (connect / via) goes first (see the harness: ids are allocated at the API call)
+        evs.sort(key=lambda e: 0 if e.startswith("cmds") and re.search(r"\b(connect|via)\b", e) else 1)
+        return "multi " + " ; ".join(evs)
+
+    def a_burst(self):
+        return "multi cmds " + " / ".join(self.a_cmd() for _ in range(self.rng.choice([2, 2, 3, 4, 5])))
+
+    def run(self, nops):
+        rng, g = self.rng, self.g
+        while len(self.ops) < nops:
+            k = rng.below(100)
+            if k < 22:
+                t = self.a_dg()
+            elif k < 31:
+                t = self.a_via()
+            elif k < 36:
+                t = self.a_connect()
+            elif k < 45:
+                t = self.a_close()
+            elif k < 61:
+                t = self.a_send()
+            elif k < 67:
+                t = self.a_wl()
+            elif k < 70:
+                t = self.a_wc()
+            elif k < 74:
+                t = self.a_cdg()
+            elif k < 82:
+                t = self.a_multi()
+            elif k < 90:
+                t = self.a_burst()
+            elif k < 95:
+                im = self.idle_ms
+                t = "adv %d" % rng.choice([1, 999, im - 1, im, im + 1, im // 2, 2 * im, 499, 501, 49999, 50001])
+            elif k < 99 or not rng.chance(1, 2):
+                t = "gc"             # the sketch does not follow the clock; stale ids afterwards are fine
+            else:
+                t = "restart"        # stop() + start(): sessions and listeners are gone, id counters go on
+                g.sess.clear(); g.ix.clear(); g.cq.clear()
+                g.lq, g.lfam = {}, {}
+                self.ops.append(t)
+                if rng.chance(2, 3):
+                    self.ops.append("listen")
+                    g.listen(4)
+                continue
+            if t:
+                self.ops.append(t)
+        return {"cat": self.cat, "ops": self.ops, "cfg": self.cfg}
+
+
+def gen_case(rng, cat, nops):
+    return Gen(rng, cat).run(nops)
 
 
 def boundary_cases(rng):
     """Every boundary size, in both directions, through every path: direct send, queued+flushed, listener and client socket."""
     cases = []
     for n in BOUNDARY + [65508]:
-        pat = rng.bytes(rng.choice([3, 7, 251])).hex()
-        pl = "%d.%s" % (n, pat)
+        pats = [rng.bytes(rng.choice([3, 7, 251])).hex() for _ in range(8)]
+        pl = ["%d.%s" % (n, p) for p in pats]
         ops = ["reset", "listen", "connect 1"]
         if n <= MAXDG:
-            ops += ["dg 1 0:%s" % pl, "cdg 1 %s" % pl]
+            ops += ["dg 1 0:%s" % pl[0], "cdg 1 %s" % pl[1]]
         else:
             ops += ["dg 1 0:1.61"]
-        ops += ["send 2 %s ok" % pl, "send 2 %s eagain" % pl, "wl 1 o", "send 1 %s ok" % pl, "send 1 %s eagain" % pl, "wc 1 -"]
+        ops += ["send 2 %s ok" % pl[2], "send 2 %s eagain" % pl[3], "wl 1 o", "send 1 %s ok" % pl[4], "send 1 %s eagain" % pl[5], "wc 1 -"]
         if n <= MAXDG:
-            ops += ["dg 1 0:%s,3:2.0102,0:%s" % (pl, "5.aabbccddee")]
+            ops += ["dg 1 0:%s,3:2.0102,0:%s" % (pl[6], "5.aabbccddee")]
         cases.append({"cat": "boundary", "ops": ops, "cfg": {}})
     return cases
 
@@ -300,42 +457,106 @@ def parse_answer(line):
     return evs, d
 
 
+def atoms_of(op):
+    """The sub-operations of one op line: [(kind, tokens)], kinds dg/cdg/send/other."""
+    t = op.split()
+    if not t:
+        return []
+    if t[0] != "multi":
+        return [t]
+    out = []
+    cur = []
+    for x in t[1:] + [";"]:
+        if x == ";":
+            if cur and cur[0] == "cmds":
+                c2 = []
+                for y in cur[1:] + ["/"]:
+                    if y == "/":
+                        if c2:
+                            out.append(c2)
+                        c2 = []
+                    else:
+                        c2.append(y)
+            elif cur:
+                out.append(cur)
+            cur = []
+        else:
+            cur.append(x)
+    return out
+
+
+SUSPECT = ("T0:",)      # failures that may be the machinery (timeout, hang, peer-side kernel drop): decided by re-running the case
+
+
 def monitor_case(c, impl):
-    """Property failures visible in the implementation's own answers for this case (list of strings, tagged T1/T2/T3)."""
+    """Property failures visible in the implementation's own answers for this case (list of strings, tagged T0/T1/T2/T3)."""
     bad = []
     cfg = c.get("cfg", {})
     capped = cfg.get("ms", 0) > 0
     chunk = cfg.get("chunk", None)
+    relaxed = capped or (chunk is not None and chunk < MAXDG)
     peer_of = {}          # sid -> peer (from the implementation's accept / connected events)
     open_s = set()
     recv_on = {}          # peer -> session that receives this peer's datagrams on listener sockets (from data events)
     sends = []            # accepted sends not yet matched: [len, crc, peer, sid]
     for op, line in zip(c["ops"], impl):
-        t = op.split()
-        if line.startswith("crash:") or line.startswith("hang:") or line.startswith("throw"):
-            bad.append("T2: the engine crashed / hung / threw on `%s`: %s" % (op[:80], line[:80]))
+        if line.startswith("crash:timeout") or line.startswith("hang:"):
+            bad.append("T0: the engine did not come back from `%s`: %s" % (op[:80], line[:60]))
+            break
+        if line.startswith("crash:") or line.startswith("throw"):
+            bad.append("T2: the engine crashed / threw on `%s`: %s" % (op[:80], line[:80]))
             break
         pa = parse_answer(line)
         if pa is None:
             continue
         evs, st = pa
+        atoms = atoms_of(op)
+        announced = {}
+        for e in evs:
+            if e[0] in "AN" and "@" in e:
+                sid, p = e[1:].split("@")
+                announced[int(sid)] = p
+        # accepted sends of this op (a send in the same batch as the connect that creates its session counts)
+        for t in atoms:
+            if t[0] == "send" and len(t) == 4:
+                n, crc = expand(t[2])
+                sid = int(t[1])
+                if n > 0 and (sid in open_s or sid in announced):
+                    sends.append([n, crc, peer_of.get(sid, announced.get(sid)), sid])
+        # arrivals of this op
+        arrivals = []         # [kind, peer-or-sid, n, crc, group, optional]
+        for gi, t in enumerate(atoms):
+            if t[0] == "dg" and len(t) == 3:
+                if ("L%s:" % t[1]) not in st.get("l", ""):
+                    continue
+                for item in t[2].split(","):
+                    p, pl = item.split(":")
+                    n, crc = expand(pl)
+                    if n >= 1:
+                        arrivals.append(["L", p, n, crc, gi, False])
+            elif t[0] == "cdg" and len(t) == 3:
+                sid = int(t[1])
+                # a client socket that existed when the batch was built; if a command of the same batch closes it, the datagram may
+                # legitimately die with the socket (optional arrival)
+                if sid in open_s and (peer_of.get(sid) is not None):
+                    after = re.search(r"(^|,)%dc@" % sid, st.get("s", "")) is not None
+                    if after or any(e.startswith("X%d:" % sid) for e in evs):
+                        for pl in t[2].split(","):
+                            n, crc = expand(pl)
+                            if n >= 1:
+                                arrivals.append(["C", sid, n, crc, gi, not after])
         datas = []
-        if t[0] == "send" and len(t) == 4:
-            n, crc = expand(t[2])
-            sid = int(t[1])
-            if sid in open_s and n > 0:
-                sends.append([n, crc, peer_of.get(sid), sid])
         for e in evs:
             k = e[0]
             if k == "A" or k == "N":
                 sid, p = e[1:].split("@")
                 sid = int(sid)
                 if sid in peer_of:
-                    bad.append("T3: session id %d announced twice (%s)" % (sid, e))
+                    bad.append("T2: session id %d announced twice (%s): ids must never be reused" % (sid, e))
                 peer_of[sid] = p
                 open_s.add(sid)
                 if k == "A":
-                    if t[0] != "dg":
+                    if not any(t[0] == "dg" for t in atoms):
                         bad.append("T2: accept outside a datagram arrival: %s in `%s`" % (e, op[:60]))
                     cur = recv_on.get(p)
                     if cur is not None and cur in open_s:
@@ -348,8 +569,11 @@ def monitor_case(c, impl):
                 sid, n, crc = e[1:].split(":")
                 datas.append((int(sid), int(n), int(crc)))
             elif k == "S":
-                if e.startswith("S?"):
-                    bad.append("T1: datagram lost after the kernel accepted it, or a datagram nobody sent: %s (op `%s`)" % (e, op[:60]))
+                if e.startswith("S?lost"):
+                    bad.append("T0: a datagram the kernel accepted from the engine never reached peer %s (op `%s`)" % (e.split(">")[-1], op[:60]))
+                    continue
+                if e.startswith("S?extra"):
+                    bad.append("T1: a peer received a datagram no send call accounts for: %s (op `%s`)" % (e, op[:60]))
                     continue
                 src, rest = e[1:].split(">")
                 p, n, crc = rest.split(":")
@@ -360,61 +584,55 @@ def monitor_case(c, impl):
                         hit = i
                         break
                 if hit is None:
-                    why = "no accepted send has these bytes for this peer (not byte-identical, wrong destination, or sent twice)"
+                    why = "no accepted send has these bytes for this peer (not byte-identical — merged/split/altered —, wrong destination, or sent twice)"
                     if any(s[0] == n and s[1] == crc for s in sends):
                         why = "addressed to peer %s, but the session it was sent on belongs to another peer" % p
                     bad.append("T1: datagram %s received by peer %s: %s (op `%s`)" % (e, p, why, op[:60]))
                 else:
                     sends.pop(hit)
-        # T2: what arrived must come out as exactly one data event each, complete, on a session of that peer
-        if t[0] == "dg" and len(t) == 3:
-            want = []
-            for item in t[2].split(","):
-                p, pl = item.split(":")
-                n, crc = expand(pl)
-                if n >= 1:
-                    want.append((p, n, crc))
-            listener_exists = ("L%s:" % t[1]) in st.get("l", "")
-            if not listener_exists:
-                want = []
-            relaxed = capped or (chunk is not None and chunk < MAXDG)
-            if not relaxed:
-                if len(datas) != len(want):
-                    bad.append("T2: %d datagram(s) arrived, %d data event(s) delivered (op `%s` -> %s)" % (len(want), len(datas), op[:80], line[:100]))
-                for (p, n, crc), (sid, dn, dcrc) in zip(want, datas):
-                    if (dn, dcrc) != (n, crc):
-                        bad.append("T2: datagram of %d bytes from peer %s delivered as %d bytes / different content (merged, split or truncated) (op `%s`)" % (n, p, dn, op[:80]))
-                    if peer_of.get(sid) != p:
-                        bad.append("T2: datagram from peer %s delivered on session %d, which belongs to peer %s (op `%s`)" % (p, sid, peer_of.get(sid), op[:80]))
-                    if sid not in open_s:
-                        bad.append("T2: datagram delivered on session %d which is not open (op `%s`)" % (sid, op[:80]))
-                    cur = recv_on.get(p)
-                    if cur is not None and cur in open_s and cur != sid:
-                        bad.append("T3: redirected: peer %s's datagram lands on session %d although session %d, which receives its datagrams, is still open (op `%s`)"
-                                   % (p, sid, cur, op[:80]))
-                    recv_on[p] = sid
-            else:
-                # capped / small receive buffer: every delivery must still be one of the arrivals, in order, on a session of that peer
-                j = 0
-                for sid, dn, dcrc in datas:
-                    while j < len(want) and not (peer_of.get(sid) == want[j][0] and (chunk is not None or (dn, dcrc) == want[j][1:])):
-                        j += 1
-                    if j >= len(want):
-                        bad.append("T2: data event D%d:%d:%d does not correspond to an arrived datagram (op `%s`)" % (sid, dn, dcrc, op[:80]))
-                        break
-                    recv_on[want[j][0]] = sid
-                    j += 1
-        elif t[0] == "cdg" and len(t) == 3:
-            sid = int(t[1])
-            want = [expand(pl) for pl in t[2].split(",")]
-            is_client = ("%dc@" % sid) in ("," + st.get("s", "")) and sid in open_s
-            if not is_client:
-                want = []
-            if chunk is None or chunk >= MAXDG:
-                if [(d[1], d[2]) for d in datas] != [w for w in want] or any(d[0] != sid for d in datas):
-                    bad.append("T2: client session %d: %d datagram(s) arrived, delivered %s (op `%s`)" % (sid, len(want), datas[:4], op[:80]))
-        elif datas:
+        # T2: what arrived must come out as exactly one data event each, complete, on a session of that sender
+        if datas and not arrivals:
             bad.append("T2: data event without a datagram arrival: %s (op `%s`)" % (datas[:3], op[:60]))
+        elif arrivals or datas:
+            by_key = {}
+            for i, a in enumerate(arrivals):
+                by_key.setdefault((a[2], a[3]), []).append(i)
+            taken = set()
+            last_in_group = {}
+            for sid, dn, dcrc in datas:
+                cand = [i for i in by_key.get((dn, dcrc), []) if i not in taken]
+                if not cand and chunk is not None and chunk < MAXDG:
+                    cand = [i for i, a in enumerate(arrivals) if i not in taken and a[2] > chunk and dn == chunk][:1]   # truncated by the configured small buffer
+                if not cand:
+                    bad.append("T2: data event D%d:%d:%d is not one of the datagrams that arrived (merged, split, truncated, altered or duplicated) (op `%s`)"
+                               % (sid, dn, dcrc, op[:80]))
+                    continue
+                i = cand[0]
+                taken.add(i)
+                a = arrivals[i]
+                if last_in_group.get(a[4], -1) > i:
+                    bad.append("T2: datagrams of one socket delivered out of arrival order (op `%s`)" % op[:80])
+                last_in_group[a[4]] = i
+                if a[0] == "C":
+                    if sid != a[1]:
+                        bad.append("T2: datagram for client session %d delivered on session %d (op `%s`)" % (a[1], sid, op[:80]))
+                    continue
+                p = a[1]
+                if peer_of.get(sid) != p:
+                    bad.append("T2: datagram from peer %s delivered on session %d, which belongs to peer %s (op `%s`)" % (p, sid, peer_of.get(sid), op[:80]))
+                if sid not in open_s and not any(e.startswith("X%d:" % sid) for e in evs):
+                    bad.append("T2: datagram delivered on session %d which is not open (op `%s`)" % (sid, op[:80]))
+                cur = recv_on.get(p)
+                if cur is not None and cur in open_s and cur != sid:
+                    bad.append("T3: redirected: peer %s's datagram lands on session %d although session %d, which receives its datagrams, is still open (op `%s`)"
+                               % (p, sid, cur, op[:80]))
+                recv_on[p] = sid
+            missing = [a for i, a in enumerate(arrivals) if i not in taken and not a[5]]
+            if missing and not relaxed:
+                a = missing[0]
+                who = "peer %s" % a[1] if a[0] == "L" else "the peer of client session %s" % a[1]
+                bad.append("T2: %d datagram(s) arrived, %d data event(s): the %d-byte datagram from %s was never delivered (silenced) (op `%s` -> %s)"
+                           % (len(arrivals), len(datas), a[2], who, op[:80], line[:90]))
     return bad
 
 
@@ -438,33 +656,103 @@ def check_machinery(impl_lines):
             raise MachineryError(l)
 
 
-def report_property(ctx, hb, c, impl, model, fails):
+def run_alone(ctx, hb, c, ops, timeout=60):
+    out, rc, err = ctx.run_lines([hb], ops, timeout=timeout, env={"C06_FAST_LOSS": "1"})
+    if rc == -999:
+        out = out + ["crash:timeout"] * (len(ops) - len(out))
+    else:
+        out = out + ["crash:exit:%s" % rc] * (len(ops) - len(out))
+    check_machinery(out)
+    cc = dict(c)
+    cc["ops"] = ops
+    return out, monitor_case(cc, out)
+
+
+def report_property(ctx, hb, c, impl, model, fails, state):
     ops = c["ops"]
+    tag = fails[0].split(":")[0]
+    if tag == "T0":
+        # timeout / hang / a datagram lost on the way to the peer socket: the engine's fault only if it happens again, twice, alone
+        again = 0
+        for _ in range(2):
+            _, f2 = run_alone(ctx, hb, c, ops)
+            if any(f.startswith("T0:") for f in f2):
+                again += 1
+        if again < 2:
+            state["machinery_suspects"].append({"what": fails[0], "ops": ops, "reproduced": again})
+            ctx.log("machinery suspect (did not reproduce twice alone): %s" % fails[0][:160])
+            return False
     if not ctx.violation_budget("property", fails[0]):
         ctx.violation("property", fails[0])
-        return
-    tag = fails[0].split(":")[0]
+        return True
 
     def still(sub):
         if not sub or not sub[0].startswith("reset"):
             sub = [ops[0]] + [o for o in sub if not o.startswith("reset")]
-        out, rc, err = ctx.run_lines([hb], sub, timeout=120)
-        out = out + ["crash:" + str(rc)] * (len(sub) - len(out))
-        cc = dict(c)
-        cc["ops"] = sub
-        return any(f.split(":")[0] == tag for f in monitor_case(cc, out))
+        _, f2 = run_alone(ctx, hb, c, sub, timeout=40)
+        return any(f.split(":")[0] == tag for f in f2)
     small = ops
+    hung = "did not come back" in fails[0]
+    if hung:
+        # every re-run of a hang costs a full watchdog period: keep the history up to the op that hangs, do not minimise further
+        k = next((i for i, l in enumerate(impl) if l.startswith("hang:") or l.startswith("crash:timeout")), len(ops) - 1)
+        small = ops[:k + 1]
+        state["hang_confirmed"] = True
     try:
-        if len(ops) > 3 and still(ops):
-            small = ddmin(ops, still, max_tests=80)
+        if not hung and len(ops) > 3 and still(ops):
+            small = ddmin(ops, still, max_tests=40 if tag != "T0" else 6)
             if not small[0].startswith("reset"):
                 small = [ops[0]] + small
+    except MachineryError:
+        raise
     except Exception:
         small = ops
-    out, rc, err = ctx.run_lines([hb], small, timeout=120)
+    out = impl[:len(small)] if hung else run_alone(ctx, hb, c, small, timeout=40)[0]
     ctx.violation("property", fails[0], {"ops": small, "observed": out, "failures": fails[:5], "category": c["cat"], "cfg": c.get("cfg", {}),
                                          "full_ops": ops if small is not ops else None, "expected_by_model": model if small is ops else None},
                   found_input=True)
+    return True
+
+
+def lockstep_bounded(ctx, hb, cases, timeout, max_crashes=2):
+    """Like ctx.lockstep, but the work on a broken tree is bounded: at most `max_crashes` harness restarts, then the remaining cases are
+    not run (returned as None)."""
+    all_ops, bounds = [], []
+    for c in cases:
+        bounds.append((len(all_ops), len(all_ops) + len(c["ops"])))
+        all_ops += c["ops"]
+    model_out, mrc, merr = ctx.run_lines(ctx.model_argv("udp"), all_ops, timeout=timeout)
+    if mrc != 0 or len(model_out) != len(all_ops):
+        raise RuntimeError("model driver failed rc=%s lines=%d/%d: %s" % (mrc, len(model_out), len(all_ops), merr[-500:]))
+    impl_out = [None] * len(all_ops)
+    start_case, crashes = 0, 0
+    from vlib.core import classify_crash
+    while start_case < len(cases):
+        lo = bounds[start_case][0]
+        out, rc, err = ctx.run_lines([hb], all_ops[lo:], timeout=timeout)
+        for i, l in enumerate(out[: len(all_ops) - lo]):
+            impl_out[lo + i] = l
+        got = lo + min(len(out), len(all_ops) - lo)
+        if got >= len(all_ops) and rc == 0:
+            break
+        crashes += 1
+        why = classify_crash(rc, err)
+        k = next(i for i, (a, b) in enumerate(bounds) if a <= got < b) if got < len(all_ops) else len(cases) - 1
+        for i in range(got, bounds[k][1]):
+            if impl_out[i] is None or not impl_out[i].startswith("hang:"):
+                impl_out[i] = "crash:" + why
+        cases[k]["crash"] = {"rc": rc, "why": why, "stderr": err[-1500:], "op_index": got - bounds[k][0]}
+        start_case = k + 1
+        if crashes >= max_crashes:
+            break
+    res = []
+    for c, (a, b) in zip(cases, bounds):
+        if any(x is None for x in impl_out[a:b]):
+            res.append((c, None, model_out[a:b]))
+        else:
+            res.append((c, impl_out[a:b], model_out[a:b]))
+    ctx.cov["traces_validated_against_impl"] += sum(1 for r in res if r[1] is not None)
+    return res, crashes
 
 
 def replay(ctx):
@@ -491,7 +779,7 @@ def replay(ctx):
     return 1 if still else 0
 
 
-CATS = [("default", 30), ("same-peer", 20), ("queue", 15), ("cap", 8), ("gc", 10), ("mixed", 12), ("small-chunk", 5)]
+CATS = [("default", 28), ("same-peer", 16), ("same-key", 10), ("queue", 14), ("cap", 8), ("gc", 9), ("mixed", 11), ("small-chunk", 4)]
 
 
 def run(ctx: Ctx):
@@ -506,85 +794,124 @@ def run(ctx: Ctx):
     if ok_build:
         ctx.audit(MODULES, OBLIGATIONS)
         if not quick:
-            ctx.leanchecker(MODULES + ["IoraModel.Lemmas.UdpTokens", "IoraModel.Lemmas.UdpCount", "IoraModel.Lemmas.UdpEngine", "IoraModel.Model.UdpEngine", "IoraModel.Gen.Udp"])
+            ctx.leanchecker(MODULES + ["IoraModel.Lemmas.UdpTokens", "IoraModel.Lemmas.UdpCount", "IoraModel.Lemmas.UdpArm", "IoraModel.Lemmas.UdpEngine",
+                                       "IoraModel.Model.UdpEngine", "IoraModel.Gen.Udp"])
     else:
         ctx.cov["obligations"] = len(OBLIGATIONS)
     hb = ctx.build_harness(HARNESS, sanitize=True)
-    dist = {}
-    opdist = {}
+    dist, opdist, evdist = {}, {}, {}
     sizes = {"1": 0, "2-1472": 0, "1473-8192": 0, "8193-65505": 0, "65506": 0, "65507": 0, ">65507": 0, "0": 0}
-    evdist = {}
+    peers_used = {}
+    state = {"machinery_suspects": [], "stopped_early": None, "not_run": 0, "harness_restarts": 0}
     if hb:
-        cases = load_corpus() + boundary_cases(rng.fork("boundary"))
+        first = load_corpus() + boundary_cases(rng.fork("boundary"))     # corpus = witnesses and targeted scenarios, always first
         total = sum(w for _, w in CATS)
         grng = rng.fork("gen")
+        rest = []
         for cat, w in CATS:
             for i in range(ncases * w // total):
-                cases.append(gen_case(grng, cat, grng.choice([8, 12, 20, 30, 40, 40])))
-        res = ctx.lockstep("udp", hb, cases, timeout=1500)
+                rest.append(gen_case(grng, cat, grng.choice([8, 12, 20, 30, 40, 40])))
+        grng.shuffle(rest)          # every chunk sees every category
+        chunk_n = 500 if quick else 2500
+        chunks = [first] + [rest[i:i + chunk_n] for i in range(0, len(rest), chunk_n)]
         n_mismatch = 0
-        for c, impl, model in res:
-            check_machinery(impl)
-            dist[c["cat"]] = dist.get(c["cat"], 0) + 1
-            nontrivial = False
-            for op, l in zip(c["ops"], impl):
-                t = op.split()
-                opdist[t[0]] = opdist.get(t[0], 0) + 1
-                for tok in ([x.split(":")[1] for x in t[2].split(",")] if t[0] == "dg" and len(t) == 3 else
-                            t[2].split(",") if t[0] == "cdg" and len(t) == 3 else [t[2]] if t[0] == "send" and len(t) == 4 else []):
-                    n = int(tok.split(".")[0])
-                    key = "0" if n == 0 else "1" if n == 1 else "2-1472" if n <= 1472 else "1473-8192" if n <= 8192 else \
-                        "8193-65505" if n <= 65505 else "65506" if n == 65506 else "65507" if n == 65507 else ">65507"
-                    sizes[key] += 1
-                pa = parse_answer(l)
-                if pa:
-                    for e in pa[0]:
-                        k = e[0] + (":" + e.split(":")[-1] if e[0] == "X" else "")
-                        evdist[k] = evdist.get(k, 0) + 1
-                        if e[0] in "ADS":
-                            nontrivial = True
-            ctx.count_case("\n".join(c["ops"]), nontrivial=nontrivial)
-            if len(ctx.cov["samples"]) < 6 and ctx.rng.chance(1, 200):
-                ctx.sample({"cat": c["cat"], "ops": c["ops"][:8], "impl": [l[:140] for l in impl[:8]]})
-            fails = monitor_case(c, impl)
-            mism = [(i, a, b) for i, (a, b) in enumerate(zip(impl, model)) if a != b]
-            if fails:
-                report_property(ctx, hb, c, impl, model, fails)
-            elif mism:
-                n_mismatch += 1
-                if n_mismatch <= 3:
-                    i, a, b = mism[0]
-                    ctx.violation("correspondence", "model and implementation disagree (no property monitor fails on this case): op `%s` impl=`%s` model=`%s`"
-                                  % (c["ops"][i][:120], a[:160], b[:160]),
-                                  {"broken": {"correspondence": "udp lockstep (harness/c06_udp.cpp vs Model/UdpEngine.lean)", "detail": "first differing op index %d" % i},
-                                   "ops": c["ops"], "observed": impl, "expected_by_model": model, "cfg": c.get("cfg", {})}, found_input=False)
-    if hb:
+        n_prop = 0
+        for ci, chunk in enumerate(chunks):
+            res, crashes = lockstep_bounded(ctx, hb, chunk, timeout=150 if quick else 600)
+            state["harness_restarts"] += crashes
+            for c, impl, model in res:
+                if impl is None:
+                    state["not_run"] += 1
+                    continue
+                check_machinery(impl)
+                dist[c["cat"]] = dist.get(c["cat"], 0) + 1
+                nontrivial = False
+                for op, l in zip(c["ops"], impl):
+                    for t in atoms_of(op):
+                        opdist[t[0]] = opdist.get(t[0], 0) + 1
+                        toks = []
+                        if t[0] == "dg" and len(t) == 3:
+                            for x in t[2].split(","):
+                                p, pl = x.split(":")
+                                peers_used[p] = peers_used.get(p, 0) + 1
+                                toks.append(pl)
+                        elif t[0] == "cdg" and len(t) == 3:
+                            toks = t[2].split(",")
+                        elif t[0] == "send" and len(t) == 4:
+                            toks = [t[2]]
+                        for tok in toks:
+                            n = int(tok.split(".")[0])
+                            key = "0" if n == 0 else "1" if n == 1 else "2-1472" if n <= 1472 else "1473-8192" if n <= 8192 else \
+                                "8193-65505" if n <= 65505 else "65506" if n == 65506 else "65507" if n == 65507 else ">65507"
+                            sizes[key] += 1
+                    if op.startswith("multi"):
+                        opdist["multi"] = opdist.get("multi", 0) + 1
+                    pa = parse_answer(l)
+                    if pa:
+                        for e in pa[0]:
+                            k = e[0] + (":" + e.split(":")[-1] if e[0] == "X" else "")
+                            evdist[k] = evdist.get(k, 0) + 1
+                            if e[0] in "ADS":
+                                nontrivial = True
+                ctx.count_case("\n".join(c["ops"]), nontrivial=nontrivial)
+                if len(ctx.cov["samples"]) < 6 and ctx.rng.chance(1, 300):
+                    ctx.sample({"cat": c["cat"], "ops": c["ops"][:8], "impl": [l[:140] for l in impl[:8]]})
+                fails = monitor_case(c, impl)
+                mism = [(i, a, b) for i, (a, b) in enumerate(zip(impl, model)) if a != b]
+                if fails and (n_prop >= 3 or state.get("hang_confirmed")):
+                    ctx.violation("property", fails[0])          # counted, not minimised: three failing inputs are in hand
+                elif fails:
+                    n_prop += 1 if report_property(ctx, hb, c, impl, model, fails, state) else 0
+                elif mism:
+                    n_mismatch += 1
+                    if n_mismatch <= 3:
+                        i, a, b = mism[0]
+                        ctx.violation("correspondence", "model and implementation disagree (no property monitor fails on this case): op `%s` impl=`%s` model=`%s`"
+                                      % (c["ops"][i][:120], a[:160], b[:160]),
+                                      {"broken": {"correspondence": "udp lockstep (harness/c06_udp.cpp vs Model/UdpEngine.lean)", "detail": "first differing op index %d" % i},
+                                       "ops": c["ops"], "observed": impl, "expected_by_model": model, "cfg": c.get("cfg", {})}, found_input=False)
+            # bounded work on a broken tree: once a few failing inputs are in hand (or the harness keeps dying), more cases add nothing
+            if n_prop >= 3 or n_mismatch >= 30 or state["harness_restarts"] >= 2 or len(state["machinery_suspects"]) >= 4 or state.get("hang_confirmed"):
+                if ci + 1 < len(chunks):
+                    state["stopped_early"] = "after chunk %d of %d: %d property failure(s), %d model/impl mismatch(es), %d harness restart(s)" % (
+                        ci + 1, len(chunks), n_prop, n_mismatch, state["harness_restarts"])
+                    state["not_run"] += sum(len(x) for x in chunks[ci + 1:])
+                break
+        if state["machinery_suspects"] and not ctx.violations:
+            # a timeout / lost datagram that did not reproduce and nothing else wrong: the machinery, not the property (exit 2, no VIOLATION)
+            raise MachineryError("non-reproducing timeout/lost-datagram: %s" % state["machinery_suspects"][0]["what"][:200])
         # interposer fire counts (stderr of the harness) on a fixed sample: corpus + boundary cases
-        sample_ops = [o for c in (load_corpus() + boundary_cases(rng.fork("boundary")))[:12] for o in c["ops"]]
+        sample_ops = [o for c in first[:16] for o in c["ops"]]
         _, _, err = ctx.run_lines([hb], sample_ops, timeout=300)
         for l in err.splitlines():
             if l.startswith("interposers:"):
                 ctx.extra["interposer_counts_on_corpus_and_boundary_sample"] = dict(kv.split("=") for kv in l.split()[1:])
-    ctx.extra["input_distribution"] = {"categories": dist, "ops": opdist, "payload_sizes": sizes, "events_seen": evdist}
+    ctx.extra["input_distribution"] = {"categories": dist, "ops": opdist, "payload_sizes": sizes, "events_seen": evdist, "datagrams_by_peer": peers_used}
+    ctx.extra["bounded_work"] = state
     ctx.extra["repo_tree_sha"] = ctx.repo_tree_sha(ANCHOR_FILES)
     ctx.extra["not_proved"] = NOT_PROVED
     ctx.assumptions += ASSUMPTIONS
-    return ctx.finish(level="proof", rule="a case = one history (<= 40 ops) run from a fresh real UdpEngine; distinct = distinct op lists; "
-                      "non-trivial = at least one accept, data or sent-datagram event")
+    return ctx.finish(level="proof", rule="a case = one history (<= 40 ops, an op may be a batch of several events/commands) run from a fresh real UdpEngine; "
+                      "distinct = distinct op lists; non-trivial = at least one accept, data or sent-datagram event")
 
 
 NOT_PROVED = [
     "by design, not a defect: with a CONFIGURED maxSessions cap reached (default: no cap, pinned by G3) a datagram from an UNKNOWN peer is dropped without any event; "
     "T2 carries the explicit hypothesis `Admitted` and T2_refused_exactly / T2_counter_exact say precisely when it fails",
-    "failure arms of connectDo/viaDo (getaddrinfo failure, address-family mismatch, ::connect failure) and hard recv/recvfrom errors are not modelled: they create no session and touch no index entry (lifecycle = C02)",
-    "theorems are over sequences of I/O-thread steps (one epoll event each); API calls on other threads only enqueue commands, so their order is the step order; an epoll batch carrying a stale event "
-    "for a closed-and-reused fd number (DESIGN §8 observation) is outside the model",
+    "failure arms of connectDo/viaDo other than the address-family mismatch (getaddrinfo failure, ::connect failure) and hard recv/recvfrom errors are not modelled: "
+    "they create no session and touch no index entry (lifecycle = C02)",
+    "theorems are over sequences of I/O-thread steps (one epoll event / one command each); a multi-event batch is the sequence of its events in the order the loop "
+    "flavour handles them (Model.batchOrder; the harness exercises both flavours); API calls on other threads only enqueue commands, so their order is the step order. "
+    "Concurrent callers racing on the id counter are outside the model (G7 pins the counter to std::atomic)",
     "zero-length datagrams are outside the property (sizes 1..65507): on a listener they are consumed without an event, on a client socket they are delivered as an empty view and end the read loop (modelled as such)",
-    "IPv6 / v4-mapped peers are not exercised by the harness (the model is address-agnostic: Addr = Nat, key() assumed injective)",
+    "the index key is identified with the socket address: key()'s and addressFromSockaddr's SHAPES are pinned by G6 and exercised with same-port peers on 127.0.0.1 / 127.0.0.2 / ::1, "
+    "but getnameinfo's injectivity itself, v4-mapped addresses on a dual-stack listener and scoped IPv6 addresses are assumed / not exercised",
+    "G5 pins the flags and socket options the engine passes TODAY; what an option that is not on the whitelist would do is not modelled (the obligation simply fails)",
 ]
 ASSUMPTIONS = [
-    "kernel UDP is modelled, not verified: one successful send/sendto = one datagram with these bytes to this destination; a connected socket only returns its peer's datagrams",
+    "kernel UDP is modelled, not verified: one successful send/sendto with flags MSG_NOSIGNAL = one datagram with these bytes to this destination; a connected socket only returns its peer's datagrams; "
+    "epoll reports a socket only for events in the interest mask last set by epoll_ctl",
     "getnameinfo's numeric host:port key is injective on socket addresses (the model identifies the string key with the address)",
-    "the I/O thread is the only thread that touches the tables; one model step = one epoll event (the harness delivers exactly one event per op)",
+    "the I/O thread is the only thread that touches the tables; one model step = one epoll event or one queued command",
     "callbacks do not re-enter the engine synchronously (close()/send() from a callback only enqueue a command, which is a later step)",
 ]
